@@ -593,6 +593,72 @@ impl B {
         }
     }
 
+    /// Two long needles of equal length that share their tail (and so any
+    /// fingerprint computed from the last few dozen bytes) but differ early;
+    /// a finder for each, possibly on different threads, searching haystacks
+    /// that contain both. Anything keyed on partial information about a needle
+    /// confuses the two.
+    fn scn_related_finders(&mut self, ta: usize, tb: usize, max_hay: usize) {
+        if self.full() {
+            return;
+        }
+        let len = self.rng.range(64, 160);
+        let alpha = inputs::alphabet(&mut self.rng);
+        let a = inputs::structured(&mut self.rng, len, &alpha);
+        let mut b = a.clone();
+        // differ somewhere in the first len-33 bytes, in a way that changes
+        // the needle's period/critical factorisation
+        let at = self.rng.usize_below(len - 33);
+        b[at] = if b[at] == b'#' { b'$' } else { b'#' };
+        if self.rng.chance(1, 2) {
+            let at2 = self.rng.usize_below(len - 33);
+            b[at2] = b[at2].wrapping_add(1);
+        }
+        let na = self.buf(a.clone(), None);
+        let nb = self.buf(b.clone(), None);
+        let mut hays = Vec::new();
+        for _ in 0..self.rng.range(2, 4) {
+            if self.full() {
+                break;
+            }
+            let mut h: Vec<u8> = Vec::new();
+            let target = self.rng.range(len, max_hay.max(len + 1));
+            while h.len() < target {
+                match self.rng.below(5) {
+                    0 => h.extend_from_slice(&a),
+                    1 => h.extend_from_slice(&b),
+                    2 => h.extend_from_slice(&a[..self.rng.range(1, len)]),
+                    3 => h.extend_from_slice(&b[len - self.rng.range(1, len)..]),
+                    _ => {
+                        let k = self.rng.range(1, 20);
+                        let w = inputs::word(&mut self.rng, k, &alpha);
+                        h.extend_from_slice(&w);
+                    }
+                }
+            }
+            hays.push(self.buf(h, None));
+        }
+        let cfg = self.finder_cfg();
+        let fa = self.slot(ta);
+        self.push(ta, Op::FinderNew { rev: false, needle: na, cfg: cfg.clone(), dst: fa });
+        let fb = self.slot(tb);
+        self.push(tb, Op::FinderNew { rev: false, needle: nb, cfg, dst: fb });
+        for &hay in &hays {
+            self.push(ta, Op::FinderFind { f: fa, hay, via_ref: false });
+            self.push(tb, Op::FinderFind { f: fb, hay, via_ref: false });
+        }
+        if let Some(&hay) = hays.first() {
+            let it = self.slot(tb);
+            self.push(tb, Op::FIterNew { f: Some(fb), rev: false, hay, needle: nb, dst: it });
+            for _ in 0..self.rng.range(1, 4) {
+                self.push(tb, Op::FIterNext { it });
+            }
+            self.push(tb, Op::Drop { s: it });
+        }
+        self.push(ta, Op::Drop { s: fa });
+        self.push(tb, Op::Drop { s: fb });
+    }
+
     fn scn_memmem_oneshots(&mut self, t: usize, k: usize, max_hay: usize, max_needle: usize) {
         for _ in 0..k {
             if self.full() {
@@ -961,11 +1027,15 @@ pub fn generate(profile: Profile, verif_seed: u64, index: u64, tgt: Target) -> F
             for _ in 0..scen {
                 let t = b.rng.usize_below(nthreads.saturating_sub(1).max(1));
                 let (mh, mn) = (b.max_hay(400), 80);
-                match b.rng.below(6) {
+                match b.rng.below(7) {
                     0 => b.scn_byte_iter(t, false, true, mh),
                     1 => b.scn_finder_reuse(t, mh, mn, false),
                     2 => b.scn_sub_iter(t, mh, mn, false),
                     3 => b.scn_byte_iter(t, true, true, mh),
+                    4 => {
+                        let tb = b.rng.usize_below(nthreads);
+                        b.scn_related_finders(t, tb, mh)
+                    }
                     _ => {
                         let k = b.rng.range(1, 4);
                         b.scn_shared_finder_race(mh, mn, k)
@@ -1030,7 +1100,11 @@ pub fn generate(profile: Profile, verif_seed: u64, index: u64, tgt: Target) -> F
             for _ in 0..k {
                 let t = b.rng.usize_below(nthreads.saturating_sub(1).max(1));
                 let (mh, mn) = (b.max_hay(2048), 300);
-                b.scn_sub_iter(t, mh, mn, true);
+                if b.rng.chance(1, 10) {
+                    b.scn_related_finders(t, t, mh);
+                } else {
+                    b.scn_sub_iter(t, mh, mn, true);
+                }
             }
         }
         Profile::C16 => {
@@ -1038,10 +1112,10 @@ pub fn generate(profile: Profile, verif_seed: u64, index: u64, tgt: Target) -> F
             for _ in 0..k {
                 let t = b.rng.usize_below(nthreads.saturating_sub(1).max(1));
                 let (mh, mn) = (b.max_hay(1200), 300);
-                if b.rng.chance(2, 3) {
-                    b.scn_finder_reuse(t, mh, mn, true);
-                } else {
-                    b.scn_sub_iter(t, mh, mn, true);
+                match b.rng.below(10) {
+                    0..=5 => b.scn_finder_reuse(t, mh, mn, true),
+                    6..=8 => b.scn_sub_iter(t, mh, mn, true),
+                    _ => b.scn_related_finders(t, t, mh),
                 }
             }
         }
